@@ -52,6 +52,8 @@ type result struct {
 	StdCallable []string `json:"std_callable_locking_methods"`
 	// reviewed assumptions of the configuration that were actually used
 	InfeasibleUsed []infeasible `json:"infeasible_calls_used"`
+	// publication order: traces, shared fields, violations (see publish.go)
+	Publication *pubFacts `json:"publication"`
 	// field -> mutex of its struct that guards it (configured or inferred)
 	GuardedBy []guardedByOut `json:"guarded_by"`
 	// mutable fields of mutex-bearing structs never seen accessed under the mutex (not checked; informational)
@@ -111,7 +113,12 @@ func (a *analyzer) result() *result {
 		ExemptFlds: []exemptFldOut{}, ExemptFns: []exemptFnOut{}, GuardedBy: []guardedByOut{}, NeverUnderLock: []string{},
 		MutexFieldClasses: []string{}, MutexGuardingNothing: []string{}}
 	// stable numbering: classes sorted by name
-	names := append([]string(nil), a.classNames...)
+	var names []string
+	for id, n := range a.classNames {
+		if !a.pseudo(id) { // pub: / fgn: / ctx: markers of the publication-order fact are not locks
+			names = append(names, n)
+		}
+	}
 	sort.Strings(names)
 	renum := map[int]int{}
 	for newID, n := range names {
@@ -166,7 +173,9 @@ func (a *analyzer) result() *result {
 		}
 		o := accessOut{Field: rec.field, Func: shortName(rec.fn.String()), Kind: rec.kind, Pos: a.pf.str(rec.pos)}
 		for _, h := range rec.held {
-			o.Holding = append(o.Holding, a.classNames[h.class])
+			if !a.pseudo(h.class) {
+				o.Holding = append(o.Holding, a.classNames[h.class])
+			}
 		}
 		o.Chain = a.chainStrings(rec.chain, "")
 		if why := a.fieldExemption(rec.field, rec.kind, shortName(rec.fn.String())); why != "" {
@@ -246,6 +255,7 @@ func (a *analyzer) result() *result {
 			r.InfeasibleUsed = append(r.InfeasibleUsed, x)
 		}
 	}
+	r.Publication = a.pubResult()
 	r.Stats["contexts"] = a.contexts
 	r.Stats["guarded_access_kinds_seen_with_guard_held"] = len(a.guardedOK)
 	for k, v := range a.notes {
@@ -309,7 +319,7 @@ func emitCoq(r *result) string {
 	sb.WriteString("   Lock classes, lock-order edges (\"acquire b while holding a\") and the\n")
 	sb.WriteString("   guarded-field accesses reachable without their guard.  Witness call chains\n")
 	sb.WriteString("   are in the JSON written next to this file. *)\n")
-	sb.WriteString("From Coq Require Import List NArith String.\nImport ListNotations.\nOpen Scope N_scope.\n\n")
+	sb.WriteString("From Coq Require Import List NArith String.\nFrom Lal Require Import Lock.PubOrder.\nImport ListNotations.\nOpen Scope N_scope.\n\n")
 	sb.WriteString("Definition lock_names : list (N * string) := [\n")
 	for i, c := range r.Classes {
 		sep := ";"
@@ -432,6 +442,9 @@ func emitCoq(r *result) string {
 	fmt.Fprintf(&sb, "(* functions that return holding a lock they acquired, other than the listed known finding(s):\n   the balance hypothesis of the progress theorem *)\nDefinition lock_leak_sites : N := %d.\n", len(r.LockLeaks))
 	for _, k := range r.KnownLockLeaks {
 		fmt.Fprintf(&sb, "(* known finding, excluded: %s *)\n", coqComment(k))
+	}
+	if r.Publication != nil {
+		emitPubCoq(&sb, r.Publication)
 	}
 	return sb.String()
 }
